@@ -293,7 +293,10 @@ def compare_step(ck: Check, h: Harness, state, got, ctx):
              "space": str(sp["id"]), "int_var": bool(h.int_cols), "normalize": bool(cfgd["normalize"]),
              "use_db": bool(cfgd["useDb"]), "store_jac": bool(cfgd["storeJac"]),
              "round_ints": bool(cfgd["roundInts"]), "frac_int": bool(ctx["frac"]), "call": str(ret["call"][0]),
-             "neg_zero_key": neg_zero, "nonfloat_key": nonfloat_key}
+             "neg_zero_key": neg_zero, "nonfloat_key": nonfloat_key,
+             # the history so far contains evaluate_functions(<normalised vector>): the only call of the
+             # alphabet that builds its database key through unnormalize_vect's common dtype (D0108)
+             "norm_evalall_in_history": any(c[0] == "EvalAll" and bool(c[2]) for c in ctx["calls"])}
         s.update(diff=h.diff, jac=h.variant["jac"], support_sparse=h.variant["support_sparse"],
                  build=h.variant["build"], cur=h.cur, pre_norm=h.variant["pre_norm"])
         s.update(kw)
